@@ -158,12 +158,23 @@ def variant_of(st, op):
     return {"op": "gen", "name": name, "params": p, "seed": op["seed"], "seed_form": op.get("seed_form", "int"), "variant": c}
 
 
+# inputs that reach numerical corners random draws almost never reach (each found by a long seeded search):
+# random_povm(2, 1, 1, seed=209979) draws a Gram block of condition number 1.6e6
+HARD_CASES = [
+    ("random_povm", {"dim": 2, "num_inputs": 1, "num_outputs": 1}, 209979),
+]
+
+
 def draw_client_ops(st, n_ops, hot):
     """hot: list of (name, params, seed) triples shared by all clients so that the
     same triple recurs within and across clients."""
     ops = []
     for _ in range(n_ops):
-        kind = st.weighted([("gen", 10), ("hot", 8), ("unseeded", 4), ("pgm", 3), ("measure", 3), ("variant", 6)])
+        kind = st.weighted([("gen", 10), ("hot", 8), ("unseeded", 4), ("pgm", 3), ("measure", 3), ("variant", 6), ("hard", 1)])
+        if kind == "hard":
+            name, params, seed = HARD_CASES[st.draw(len(HARD_CASES))]
+            ops.append({"op": "gen", "name": name, "params": dict(params), "seed": seed, "seed_form": "int", "hard_case": True})
+            continue
         if kind == "variant":
             earlier = [o for o in ops if o["op"] == "gen" and o["seed"] is not None]
             v = variant_of(st, earlier[st.draw(len(earlier))]) if earlier else None
@@ -457,6 +468,8 @@ def run(cs, tier, run_index):
                 res.probe("list_dim_used")
             if op.get("variant"):
                 res.probe("variant_call:" + op["variant"])
+            if op.get("hard_case"):
+                res.probe("hard_case_used")
     res.probe("entropy_requests", ent.requests)
     res.nontrivial = bool(sch.switches_inside and adv_between and any(v >= 3 for v in counts.values()))
     res.interleaving = sch.interleaving_digest()
